@@ -290,6 +290,12 @@ class Executor:
             other = files[keys[(op["index"] + 1) % len(keys)]]
             if other["checksum"] == e["checksum"]:
                 return {"noop": "same_checksum"}
+            # the forged checksum must really be wrong for the file now stored under this path:
+            # after a swap / rename it can be the right one, and reusing the entry is then what
+            # the statement allows (nothing on disk can reveal the edit)
+            full = w.p(key)
+            if os.path.isfile(full) and other["checksum"] in O.checksums_of(read_bytes(full)):
+                return {"noop": "forged_checksum_matches_current_content"}
             e["checksum"] = other["checksum"]
         elif what == "path":
             newkey = op.get("newkey") or ("moved/" + key)
